@@ -170,3 +170,82 @@ Proof.
   - destruct ((reason =? 9) || (reason =? 10)); inversion E; subst; (split; [|reflexivity]);
       [apply rs_logout, rs_do_reject; exact H | apply rs_incr, rs_do_reject; exact H].
 Qed.
+
+(* ---------- the handlers for a sequence-gated message ---------- *)
+Lemma rs_verify : forall m s hi lo app s' r, verify_select s m hi lo app = (s', r) -> RS m s -> RS m s'.
+Proof.
+  intros m s hi lo app s' r E H. unfold verify_select in E.
+  repeat match type of E with
+         | context [match ?x with Some _ => _ | None => _ end] => destruct x
+         end; try (inversion E; subst; exact H).
+  destruct app; [|inversion E; subst; exact H].
+  unfold verify_msg_against_app_impl in E. destruct (rej_of_verdict (mi_valid m)); [inversion E; subst; exact H|].
+  destruct (is_admin (mi_type m)); inversion E; subst; apply rs_log; exact H.
+Qed.
+
+Lemma gated_wire_ok : forall m s s1 next,
+  gated_type (mi_type m) = true -> RS m s -> in_session_fix_msg_in s m = (s1, next) ->
+  okwire m (s_wire s1) /\ is_connected next = true.
+Proof.
+  intros m s s1 next Hg H E. unfold gated_type in Hg. apply negb_true_iff in Hg.
+  repeat (apply orb_false_elim in Hg as [Hg ?]).
+  unfold in_session_fix_msg_in in E.
+  repeat match goal with Hb : beq_bytes (mi_type m) _ = false |- _ => rewrite Hb in E; clear Hb end.
+  destruct (beq_bytes (mi_type m) T_TESTREQ).
+  - unfold handle_test_request, verify in E.
+    destruct (verify_select s m true true true) as [s' [r|]] eqn:Ev; pose proof (rs_verify _ _ _ _ _ _ _ Ev H) as H'.
+    + eapply rs_process_reject; eassumption.
+    + inversion E; subst. split; [|reflexivity].
+      destruct (mi_testreq m); [apply rs_incr, rs_send; [exact H' | reflexivity | reflexivity] | exact (proj2 H')].
+  - unfold verify in E.
+    destruct (verify_select s m true true true) as [s' [r|]] eqn:Ev; pose proof (rs_verify _ _ _ _ _ _ _ Ev H) as H'.
+    + eapply rs_process_reject; eassumption.
+    + inversion E; subst. split; [exact (proj2 H') | reflexivity].
+Qed.
+
+Theorem reject_shape_step : forall s m,
+  s_st s = SInSession -> s_out_open s = true -> s_to_send s = [] -> gated_type (mi_type m) = true ->
+  forallb (fun w => negb (is_type T_REJECT w) || c06_reject_shape m w) (ob_wire (obs_of (step s (EIncoming m)))) = true.
+Proof.
+  intros s m Hst Ho Hq Hg.
+  set (c := clear_logs s).
+  assert (Hrs : RS m c).
+  { split; [|constructor]. split; [change (s_st c) with (s_st s); rewrite Hst; reflexivity | split; [exact Ho | exact Hq]]. }
+  rewrite (step_incoming_in_session s m Hst). fold c.
+  destruct (in_session_fix_msg_in c m) as [s1 next] eqn:E.
+  destruct (gated_wire_ok m c s1 next Hg Hrs E) as [Hw Hc].
+  rewrite (set_state_connected s1 next Hc).
+  change (ob_wire (obs_of (upd_st s1 next))) with (rev (s_wire s1)).
+  apply forallb_forall. intros w Hin. apply in_rev in Hin.
+  pose proof (proj1 (Forall_forall _ _) Hw w Hin) as Hk. cbv beta in Hk.
+  destruct (is_type T_REJECT w); [rewrite (Hk eq_refl); reflexivity | reflexivity].
+Qed.
+
+(* ---------- trace level ---------- *)
+Lemma c06_scan_shape : forall es s i, Boundary s ->
+  free_of [603] (c06_scan (s_cfg s) i (obs_of s) (combine es (map obs_of (run_trace es s)))) = true.
+Proof.
+  induction es as [|e r IH]; intros s i Hb; cbn [run_trace map combine]; [reflexivity|].
+  cbn [c06_scan]. rewrite !free_of_app. repeat (apply andb_true_iff; split).
+  - free_rest.
+  - free_rest.
+  - destruct e; try reflexivity.
+    match goal with |- free_of _ (if ?x then _ else _) = true => destruct x eqn:Ec; [|reflexivity] end.
+    rewrite free_of_app. apply andb_true_iff; split; [free_rest|].
+    repeat (apply andb_true_iff in Ec as [Ec ?]).
+    change (ob_st (obs_of s)) with (shape_of (s_st s)) in *.
+    assert (Hst : s_st s = SInSession).
+    { apply plain_in_session. repeat (apply andb_true_iff; split); assumption. }
+    assert (Hq : s_to_send s = []) by (apply len0; assumption).
+    assert (Ho : s_out_open s = true).
+    { destruct Hb as [B1 _]. rewrite Hst in B1. exact (proj1 (B1 eq_refl)). }
+    rewrite (reject_shape_step s m Hst Ho Hq) by assumption. reflexivity.
+  - rewrite <- (step_cfg (s_cfg s) s e eq_refl). apply IH. apply step_boundary; exact Hb.
+Qed.
+
+(* C06, trace level: on every trace of the model, every Reject written while a logged-on, non-recovering session (nothing
+   queued or buffered) processes a sequence-gated message quotes that message's MsgSeqNum as RefSeqNum (or has none when
+   the message has no readable number) and carries exactly its routing fields, reversed *)
+Lemma c06_reject_shape_never_fails : forall c es,
+  free_of [603] (c06_check c (combine es (map obs_of (run_trace es (init_sess c))))) = true.
+Proof. intros c es. unfold c06_check. apply (c06_scan_shape es (init_sess c)). apply init_boundary. Qed.
